@@ -76,8 +76,15 @@ def profileDictOp (args : List String) : Option String :=
     let d := profileDict v temp press dens mu act inact cond
     pure (fList (fun e => e.1 ++ " " ++ fProfVal e.2) d)) args
 
+/-- `c11.unit from to` → optional conversion factor between metre multiples -/
+def unitOp (args : List String) : Option String :=
+  run (do
+    let a ← tok
+    let b ← tok
+    pure (fOpt fF (lengthFactor (α := Float) a b))) args
+
 def ops : List Op :=
-  [("c11.levels", levelsOp), ("c11.arraylevels", arrayLevelsOp), ("c11.scale", scaleOp),
+  [("c11.unit", unitOp), ("c11.levels", levelsOp), ("c11.arraylevels", arrayLevelsOp), ("c11.scale", scaleOp),
    ("c11.gravity", gravityOp), ("c11.density", densityOp), ("c11.profiledict", profileDictOp)]
 
 end Taurex.Ops.C11
